@@ -93,3 +93,222 @@ Lemma('bxor_involution', [('a', t.INT), ('k', t.INT)],
                           t.eq(t.app('bxor', t.INT, t.app('bxor', t.INT, v['a'], v['k']), v['k']), v['a'])), tags=('C15',))
 Lemma('bxor_zero', [('a', t.INT)],
       lambda v: t.implies(t.and_(t.le(t.ZERO, v['a']), t.lt(v['a'], I(256))), t.eq(t.app('bxor', t.INT, v['a'], t.ZERO), v['a'])), tags=('C15',))
+
+
+# ================================================================================================ ProcessRotateLeft (C15)
+# Specification (written from the documentation: "rotates all bits left in groups of `group` bytes", a group being one
+# big-endian integer of 8*group bits): with A = amount mod 8g, ab = A div 8, a1 = A mod 8, output byte j of a group is
+#     a1 == 0:  in[(j+ab) mod g]
+#     else:     (in[(j+ab) mod g] << a1) mod 256  +  in[(j+ab+1) mod g] >> (8-a1)
+# Parameters are enumerated (variants); the data and its length are symbolic.  rotarr(buf, pos, A, g) names the rotated string.
+prelude.declare_fun('rotarr', [t.ARR, t.INT, t.INT, t.INT], t.ARR)
+
+
+def rot_byte(arr, base, idx, A, g):
+    """specification value of output byte idx (0-based within the region starting at base) for normalised amount A, group g;
+    written as a case split over the position j = idx mod g within the group, with concrete source positions"""
+    ab, a1 = A // 8, A % 8
+    if A == 0:
+        return t.select(arr, t.add(base, idx))
+    j = t.pymod(idx, I(g))
+    g0 = t.add(base, t.sub(idx, j))
+
+    def at_j(jj):
+        def src(off):
+            return t.select(arr, t.add(g0, I((jj + off) % g)))
+        if a1 == 0:
+            return src(ab)
+        return t.add(t.pymod(t.mul(src(ab), I(2 ** a1)), I(256)), t.pyfloordiv(src(ab + 1), I(2 ** (8 - a1))))
+    out = at_j(g - 1)
+    for jj in range(g - 2, -1, -1):
+        out = t.ite(t.eq(j, I(jj)), at_j(jj), out)
+    return out
+
+
+def _rotarr_axioms(x):
+    buf, pos, A, g = x.args
+    i = t.var('ra!', t.INT)
+    return [t.forall([i], t.implies(t.ge(i, t.ZERO), t.eq(t.select(x, i), rot_byte(buf, pos, i, A.args[0], g.args[0]))), pats=[[t.select(x, i)]])]
+
+
+prelude.AXIOMATIZED['rotarr'] = _rotarr_axioms
+
+
+def _rot_params(pre, negate=False):
+    v = pre.eng.variant
+    a, g = v['amount'], v['group']
+    if g < 1:
+        return None, g
+    A = (-a if negate else a) % (8 * g)
+    return A, g
+
+
+def _rot_region(pre):
+    o = S_(pre)
+    A, g = _rot_params(pre)
+    r = Region.__new__(Region)
+    r.buf = t.app('rotarr', t.ARR, o.buf, o.pos, I(A), I(g))
+    n = _avail(o)
+    # io.BytesIO(data): a plain stream whose tell() is relative (the documented behaviour of this construct)
+    r.len, r.pos, r.base, r.offset = n, t.ZERO, t.ZERO, t.ZERO
+    r.model = 'bytesio'
+    return r
+
+
+def _rot_parse_guard(pre):
+    o = S_(pre)
+    A, g = _rot_params(pre)
+    if A is None:
+        return t.FALSE
+    return t.and_(t.eq(t.pymod(_avail(o), I(g)), t.ZERO), Sub(pre, 'subcon', o=_rot_region(pre)).ok)
+
+
+def _rot_parse_ok(pre, post):
+    o, o2 = S_(pre), post.obj('stream')
+    inner = Sub(pre, 'subcon', o=_rot_region(pre))
+    return [('inner-construct-sees-the-rest-of-the-stream-rotated-left-within-groups', result_is(post, inner.val), ('C15',)),
+            ('outer-stream-read-to-its-end', t.eq(o2.pos, t.add(o.pos, _avail(o))), ('C15', 'C08')),
+            ('buffer-unchanged', buffer_same(pre, post), ('C17', 'C08'))]
+
+
+def _rot_parse_bad(pre, post):
+    o = S_(pre)
+    A, g = _rot_params(pre)
+    rot = t.eq(post.exc.cls, I(post.eng.src.exc_code['RotationError']))
+    bad_len = t.TRUE if A is None else t.ne(t.pymod(_avail(o), I(g)), t.ZERO)
+    return [('length-not-a-multiple-of-the-group-or-group-below-1-is-RotationError', t.implies(bad_len, rot), ('C15', 'C06'))] + generic_raise(pre, post)
+
+
+def _rot_build_sub(pre):
+    return Sub(pre, 'subcon', o=Empty, obj=pre['obj'].t, kind='build')
+
+
+def _rot_build_guard(pre):
+    A, g = _rot_params(pre, negate=True)
+    if A is None:
+        return t.FALSE
+    s = _rot_build_sub(pre)
+    return t.and_(s.ok, t.eq(t.pymod(s.len, I(g)), t.ZERO))
+
+
+def _rot_build_ok(pre, post):
+    o, o2 = S_(pre), post.obj('stream')
+    A, g = _rot_params(pre, negate=True)
+    s = _rot_build_sub(pre)
+    i = t.var('i!', t.INT)
+    written = forall_range(i, o.pos, t.add(o.pos, s.len), t.eq(t.select(o2.buf, i), rot_byte(s.bytes, t.ZERO, t.sub(i, o.pos), A, g)), [[t.select(o2.buf, i)]])
+    return [('advances-by-the-inner-length', t.eq(o2.pos, t.add(o.pos, s.len)), ('C15', 'C05')),
+            ('emits-the-inner-bytes-rotated-by-the-negated-amount', written, ('C15',)),
+            ('returns-inner-build-value', result_is(post, s.ret), ('C15', 'C01'))]
+
+
+def _rot_build_bad(pre, post):
+    A, g = _rot_params(pre, negate=True)
+    s = _rot_build_sub(pre)
+    rot = t.eq(post.exc.cls, I(post.eng.src.exc_code['RotationError']))
+    bad_len = t.TRUE if A is None else t.and_(s.ok, t.ne(t.pymod(s.len, I(g)), t.ZERO))
+    return [('length-not-a-multiple-of-the-group-or-group-below-1-is-RotationError', t.implies(bad_len, rot), ('C15', 'C06'))] + generic_raise(pre, post)
+
+
+from .classes import VariantDict  # noqa
+ROT_QUICK = [(0, 1), (3, 1), (7, 1), (9, 1), (-3, 1), (8, 2), (5, 2), (13, 2), (-5, 2), (16, 2), (8, 3), (16, 3), (24, 3), (4, 3), (17, 3), (-1, 3), (8, 4), (24, 4), (32, 4), (70, 8), (63, 8), (1, 8), (8, 8), (1, 0)]
+ROT_ALL = [(a, g) for g in range(1, 9) for a in range(-64, 65)] + [(1, 0), (0, -1)]
+ROT_ALL += [p for p in ROT_QUICK if p not in ROT_ALL]      # the thorough enumeration contains the quick one
+
+_rp = fcontract('ProcessRotateLeft', '_parse', [
+    Case('ok', 'return', _rot_parse_guard, ensures=_rot_parse_ok, rkind=rk_dyn, modifies=['stream']),
+    Case('fails', 'raise', lambda pre: t.not_(_rot_parse_guard(pre)), ensures=_rot_parse_bad, modifies=['stream']),
+], tags=('C15',))
+_rb = fcontract('ProcessRotateLeft', '_build', [
+    Case('ok', 'return', _rot_build_guard, ensures=_rot_build_ok, rkind=rk_dyn, modifies=['stream']),
+    Case('fails', 'raise', lambda pre: t.not_(_rot_build_guard(pre)), ensures=_rot_build_bad, modifies=['stream']),
+], tags=('C15',))
+import os as _os
+_rp.variants = _rb.variants = [VariantDict(amount=a, group=g) for a, g in (ROT_ALL if _os.environ.get('VERIF_TIER') == 'thorough' else ROT_QUICK)]
+
+
+# ---- native twins of the axiomatized array functions (replay / directed search only)
+from pyvc import native as _native
+
+
+def _key_at_py(P, i):
+    if P[0] in ('VInt', 'VBool'):
+        return int(P[1])
+    if P[0] == 'VBytes' and P[3] > 0:
+        return P[1].get(P[2] + i % P[3])
+    return 0
+
+
+def _rot_byte_py(buf, base, idx, A, g):
+    ab, a1 = A // 8, A % 8
+    j = idx % g
+    g0 = base + idx - j
+    if A == 0:
+        return buf.get(base + idx)
+    x = buf.get(g0 + (j + ab) % g)
+    if a1 == 0:
+        return x
+    y = buf.get(g0 + (j + ab + 1) % g)
+    return ((x << a1) & 0xff) | (y >> (8 - a1))
+
+
+_native.AXIOM_PY['xorarr'] = lambda buf, pos, P: _native.FnArr(lambda i: (buf.get(pos + i) ^ _key_at_py(P, i)) & 0xff if i >= 0 else 0)
+_native.AXIOM_PY['rotarr'] = lambda buf, pos, A, g: _native.FnArr(lambda i: _rot_byte_py(buf, pos, i, A, g) if i >= 0 else 0)
+
+
+# ---- build applies the exact inverse of parse: rotating by A what was rotated by -A (mod 8g) gives the original bytes.
+# One lemma per normalised (A, g); parameters concrete, data symbolic, all arithmetic linear (shifts by constants).
+def _rot_inverse_lemma(A, g, jj=None):
+    B = (-A) % (8 * g)
+
+    def stmt(v):
+        x, idx = v['x'], v['idx']
+        i = t.var('rb!', t.INT)
+        inrange = t.forall([i], t.and_(t.le(t.ZERO, t.select(x, i)), t.lt(t.select(x, i), I(256))), pats=[[t.select(x, i)]])
+        built = t.app('rotarr', t.ARR, x, t.ZERO, I(B), I(g))        # what build emits for inner bytes x
+        pos = t.TRUE if jj is None else t.eq(t.pymod(idx, I(g)), I(jj))
+        return t.implies(t.and_(t.ge(idx, t.ZERO), pos, inrange), t.eq(rot_byte(built, t.ZERO, idx, A, g), t.select(x, idx)))
+    return Lemma('rot_inverse_A%d_g%d%s' % (A, g, '' if jj is None else '_byte%d' % jj), [('x', t.ARR), ('idx', t.INT)], stmt, tags=('C15',),
+                 doc='parse-side rotation by %d undoes build-side rotation by %d within groups of %d bytes' % (A, B, g))
+
+
+_pairs = sorted({(a % (8 * g), g) for a, g in (ROT_ALL if _os.environ.get('VERIF_TIER') == 'thorough' else ROT_QUICK) if g >= 1})
+for _A, _g in _pairs:
+    if _A % 8 and _g > 1:
+        for _jj in range(_g):         # bit pairs across byte boundaries: one obligation per position in the group
+            _rot_inverse_lemma(_A, _g, _jj)
+    else:
+        _rot_inverse_lemma(_A, _g)
+
+
+from pyvc.lemma import LEMMAS as LEMMAS_  # noqa
+
+# ---- bit-order and byte-order swapping are involutions (the helpers themselves are verified against these specifications under C03)
+Lemma('rev8_involution', [('b', t.INT)],
+      lambda v: t.implies(t.and_(t.le(t.ZERO, v['b']), t.lt(v['b'], I(256))), t.eq(t.app('rev8', t.INT, t.app('rev8', t.INT, v['b'])), v['b'])), tags=('C15', 'C10'))
+Lemma('byte_reversal_involution', [('n', t.INT), ('i', t.INT)],
+      lambda v: t.implies(t.and_(t.le(t.ZERO, v['i']), t.lt(v['i'], v['n'])),
+                          t.and_(t.eq(t.sub(t.sub(v['n'], t.ONE), t.sub(t.sub(v['n'], t.ONE), v['i'])), v['i']),
+                                 t.le(t.ZERO, t.sub(t.sub(v['n'], t.ONE), v['i'])), t.lt(t.sub(t.sub(v['n'], t.ONE), v['i']), v['n']))), tags=('C15',),
+      doc='swapbytes(data)[i] = data[n-1-i] (its contract); applying it twice reads index n-1-(n-1-i) = i')
+
+
+def enumerate_swap_macros(C):
+    """ByteSwapped / BitsSwapped hand the SAME verified helper to both directions of Transformed (finite table on the real objects)"""
+    from construct.lib import binary
+    bad = []
+    n = 0
+    for size in range(1, 17):
+        d = C.ByteSwapped(C.Bytes(size))
+        n += 1
+        if not (type(d).__name__ == 'Transformed' and d.decodefunc is binary.swapbytes and d.encodefunc is binary.swapbytes and d.decodeamount == size and d.encodeamount == size):
+            bad.append('ByteSwapped(Bytes(%d))' % size)
+        d = C.BitsSwapped(C.Bytes(size))
+        n += 1
+        if not (type(d).__name__ == 'Transformed' and d.decodefunc is binary.swapbitsinbytes and d.encodefunc is binary.swapbitsinbytes and d.decodeamount == size and d.encodeamount == size):
+            bad.append('BitsSwapped(Bytes(%d))' % size)
+    d = C.BitsSwapped(C.GreedyBytes)
+    n += 1
+    if not (type(d).__name__ == 'Restreamed' and d.decoder is binary.swapbitsinbytes and d.encoder is binary.swapbitsinbytes and d.decoderunit == 1 and d.encoderunit == 1):
+        bad.append('BitsSwapped(GreedyBytes)')
+    return [('ByteSwapped/BitsSwapped: same helper in both directions, amounts = size (sizes 1..16, and the unsized form)', n, bad)]
